@@ -45,7 +45,7 @@ for c in checks:
             break
 sh(f"git -C {wt} checkout -- . ")
 # restore Generated.lean / evidence to the /repo state
-sh(f"cd {V} && git checkout -- lean/OFCore/OFCore/Generated.lean lean/OFCore/OFCore/GeneratedGuards.lean lean/OFCore/OFCore/GeneratedParam.lean lean/OFCore/OFCore/GeneratedEngine.lean evidence 2>/dev/null")
+sh(f"cd {V} && git checkout -- lean/OFCore/OFCore/Generated.lean lean/OFCore/OFCore/GeneratedGuards.lean lean/OFCore/OFCore/GeneratedParam.lean lean/OFCore/OFCore/GeneratedEngine.lean lean/OFCore/OFCore/GeneratedScale.lean evidence 2>/dev/null")
 d = f"{V}/seeded/{ID}-{int(n) + OFF}"
 os.makedirs(d, exist_ok=True)
 shutil.copy(f"{out}/patch{n}.diff", f"{d}/patch.diff")
